@@ -22,7 +22,7 @@ import sys
 import time
 
 HERE = os.path.dirname(os.path.abspath(__file__))
-REPO = "/repo"
+REPO = os.environ.get("VERIF_REPO", "/repo")
 TARGET = os.path.join(HERE, ".target")
 BIN = os.path.join(TARGET, "release", "cooksim")
 SHADOW_BIN_PATH = os.path.join(TARGET, "release", "cooksim-shadow")
@@ -41,7 +41,8 @@ REAL_VS_STUB = (
     "convert, scale, aisle, report rendering, serde impls), serde_yaml, codesnake, yansi, std HashMap tables "
     "(seeded hasher via the verif_hooks seam), std LazyLock. Simulated in cooksim: the thread scheduler "
     "(shuttle coroutines on one OS thread, every choice made by cooksim's own seeded scheduler), byte sinks "
-    "(FaultyWriter), user callbacks, the tracing subscriber, the event-iterator adapter, hash entropy. "
+    "(FaultyWriter), user callbacks, the tracing subscriber, the event-iterator adapter, hash entropy, the clock "
+    "(libc's clock reads and sleeps interposed by /verif/simclock: discrete simulated time with seeded jumps). "
     "In cookmiri nothing is stubbed: std::thread, atomics, RandomState and LazyLock run as MIR under Miri's "
     "seeded scheduler with the data-race detector on (guard off)."
 )
@@ -1231,7 +1232,7 @@ def check_c18(tier, seed):
         log(f"  worker {tag} hung at run index {idx}; the scenario {what}")
         log(f"VIOLATION property=C18 replay={p}")
     agg = dict(runs=0, executions=0, steps=0, switches=0, ops=0, ref_keys=0, overlap_execs=0, nested=0, fresh_build_runs=0,
-               hash_seeds=0, maps_created=0, clock_reads=0, clock_sleeps=0)
+               hash_seeds=0, maps_created=0, clock_reads=0, clock_sleeps=0, sim_time_ns=0, thread_passes=0)
     clock_seam_workers = sum(1 for o in outs if o.get("clock_seam"))
     fired, sched_kinds, threads_hist = {}, {}, {}
     seam = [0] * 5
@@ -1331,6 +1332,10 @@ def check_c18(tier, seed):
             shadow_stats.setdefault("stalled", []).append(f"{tag}@{idx}")
         sb.cleanup()
         log(f"[C18] shadow batch ({time.time() - t0:.0f}s): {shadow_info['rewrites']} rewrite(s) in {shadow_info['files']}, {shadow_stats['scenarios']} scenarios, {shadow_stats['executions']} executions")
+        if not shadow_stats["executions"]:
+            shadow_stats["no_coverage"] = True
+            log("NOTE: the shadow build ran but completed no execution (see the NOTE lines above): the library's lock / atomic operations were NOT explored as scheduling points in this run; "
+                "Miri's real-thread runs are the only schedule coverage of those primitives here")
     # ---- cold-start runs: one scenario per fresh process, each executed twice - once with
     # the reference keys observed in forward and once in reverse order. Whatever the library
     # builds lazily is first touched inside a perturbed scenario, and process-wide state keyed
@@ -1442,6 +1447,7 @@ def check_c18(tier, seed):
         "clock_seam": {"workers_with_the_shim_loaded": clock_seam_workers, "of": len(outs),
                        "what": "libc clock reads and sleeps of the worker processes are interposed (LD_PRELOAD /verif/simclock); reference, perturbed and post phases run under discrete simulated time "
                                "(fixed start instant, advance per read), the ambient reference pass and clock_jump faults change date and speed of time; the read counter shows whether the library consulted the clock at all"},
+        "reference_phases_with_other_os_thread_pass": agg["thread_passes"] + sum(o.get("thread_passes", 0) for o in cold_outs),
         "nesting_depth": depth_stats,
         "cpu_affinity": aff_stats,
         "hash_seeds": agg["hash_seeds"],
@@ -1452,6 +1458,7 @@ def check_c18(tier, seed):
         "simulator_limited_by_blocking_primitive": [f"{t}@{i}" for t, i in sim_limited],
         "runs_per_hour": int(execs / max(sim_wall, 0.001) * 3600),
         "seeds_per_hour": int(agg["runs"] / max(sim_wall, 0.001) * 3600),
+        "simulated_time_covered_s": round(agg["sim_time_ns"] / 1e9, 3),
         "simulated_time": "the library reads no clock (probe library_clock_reads_under_simulated_time counts the reads made under the clock seam); simulated time therefore only advances through injected clock jumps and stalls, and scheduling steps are reported instead",
         "real_vs_stub": REAL_VS_STUB,
         "build_s": round(build_s, 1),
